@@ -21,7 +21,7 @@ PROP = Prop(
     level='other',
     replay=replay,
     bounded=[Bounded('C19.bounded.files', 'replay/train.py', args=['--fn', 'C19'],
-                     bound='one utf-8 list of 55 lines (quick) + cp1251 and latin-1 lists (thorough); forms: plain, every second line as $HEX[], '
+                     bound='one utf-8 list of 60 lines incl. a 2500-character password whose $HEX[] line exceeds 5000 characters (quick) + cp1251 and latin-1 lists (thorough); forms: plain, every second line as $HEX[], '
                            'count-prefixed with --prefixcount, plain with blank/TAB/undecodable junk lines; literal "$HEX[" look-alike, leading/trailing/inner spaces',
                      clause='C19.equiv: the $HEX[] and count-prefixed forms train rulesets byte-identical (modulo uuid, file name, error counter) to the plain '
                             'repeated lines; junk lines do not abort training nor change the ruleset')],
